@@ -115,6 +115,56 @@ def type_histories(ctx, res):
         pyg.fresh_process_state()
 
 
+def encoding_option(ctx, res):
+    """The `encoding` option as an administrator may write it -- a list that leaves out suffixes Python knows by itself
+    (.gz, .xz, .Z, .br): it replaces the table, so those suffixes are content types again, in every protocol."""
+    from pygopherd import initialization
+    import pygopherd.gopherentry as ge_
+    tree = pyg.Tree()
+    cwd = os.getcwd()
+    try:
+        names = ["backup.tar.gz", "manual.ps.xz", "old.txt.Z", "page.html.br", "kept.txt.bz2", "plain.txt"]
+        for n in names:
+            tree.write("e/" + n, b"content of " + n.encode() + b"\n")
+        cfg = pyg.make_config(tree.root, **{"handlers.dir.DirHandler|cachetime": "0", "pygopherd|encoding": "[('.bz2', 'bzip2')]"})
+        os.chdir(pyg.REPO)
+        initialization.init_mimetypes(cfg)
+        pyg.reset_globals()
+        ge_.mapping = None
+        # the tables as configured, read independently: the MIME files of the configuration, the encoding list as written
+        files = [x for x in cfg.get("pygopherd", "mimetypes").split(":") if os.path.isfile(x)]
+        mt = mimetypes.MimeTypes(filenames=files, strict=False)
+        mt.encodings_map = {".bz2": "bzip2"}
+        for n in names:
+            gm, enc = mt.guess_type("/e/" + n, strict=False)
+            want = "application/octet-stream" if enc else (gm or cfg.get("GopherEntry", "defaultmimetype"))
+            for p, g in (("http", "+"), ("gopherp", "!"), ("spartan", "+")):
+                r = pyg.request(reqs.build(p, "/e/" + n, gplus=g), cfg, tls=reqs.TLS[p], reset=False)
+                res.evaluations += 1
+                out = r.out or b""
+                if p == "http":
+                    m_ = re.search(rb"Content-Type: ([^\r\n]*)", out)
+                    got = m_.group(1).decode() if m_ else None
+                elif p == "spartan":
+                    got = out[:out.find(b"\r\n")].decode(errors="replace").split(" ", 1)[-1]
+                else:
+                    m_ = re.search(rb"\+VIEWS:\r\n ([^: ]+)", out)
+                    got = m_.group(1).decode() if m_ else None
+                res.nontrivial.add(("encoding-option", n, p))
+                if got != want:
+                    res.violation("C04:type-not-from-configured-tables", "with a shortened `encoding` option the advertised type is not the one the configured tables assign",
+                                  {"encoding_option": "[('.bz2', 'bzip2')]", "name": n, "protocol": p}, observed=got, required=want,
+                                  replay={"type_history": True, "encoding_option": True, "name": n, "protocol": p})
+    finally:
+        try:
+            initialization.init_mimetypes(pyg.base_config())     # back to the shipped tables for everything that follows
+        finally:
+            os.chdir(cwd)
+            ge_.mapping = None
+            tree.close()
+            pyg.reset_globals()
+
+
 def overlapping_transfers(ctx, res):
     """Two documents on their way at once (as two threads of the threading server have them): while transfer A is handing
     its k-th block to the client, transfer B runs from start to finish; then A goes on.  The block is taken from A's writer
@@ -450,6 +500,7 @@ def run(ctx):
     sitecorr.compare_answers(ctx, res, ctx.n(4, 40), "C04")
     overlapping_transfers(ctx, res)
     type_histories(ctx, res)
+    encoding_option(ctx, res)
     res.degraded = list(pyg.degraded) + [d for d in res.degraded if d not in pyg.degraded]
     return res
 
